@@ -48,8 +48,14 @@ Big == {[tag |-> 4325383, ty |-> 8, v |-> B(8200, 5)], [tag |-> 4325382, ty |-> 
         [tag |-> 4325387, ty |-> 1, v |-> [i \in 1..40 |-> [tag |-> 4325382, ty |-> 7, v |-> B(250 + (i % 9), i)]]],
         [tag |-> 4325388, ty |-> 1, v |-> <<[tag |-> 4325387, ty |-> 1, v |-> [i \in 1..30 |-> [tag |-> 4325382, ty |-> 7, v |-> B(i % 19, i)]]],
                                             [tag |-> 4325383, ty |-> 8, v |-> B(9000, 7)]>>]}
+\* nesting: a structure inside a structure ... n levels deep (the format has no depth bound; vendor extensions and custom attribute values
+\* may nest as deep as they like)
+RECURSIVE Nest(_)
+Nest(n) == IF n = 0 THEN [tag |-> 5505026, ty |-> 7, v |-> <<100, 101, 101, 112>>] ELSE [tag |-> 5505025 + (n % 3), ty |-> 1, v |-> <<Nest(n - 1)>>]
+NestDepths == {8, 31, 32, 33, 34, 64, 100}
+Nested == {Nest(n) : n \in NestDepths}
 MoreTags == {4325377, 4325668, 4325669, 5505025, 5570559, 1, 16777215, 8388608, 4194304}
-Trees == Leaves(IF Deep THEN MoreTags ELSE Tags) \cup S1 \cup S2 \cup S3 \cup Big
+Trees == Leaves(IF Deep THEN MoreTags ELSE Tags) \cup S1 \cup S2 \cup S3 \cup Big \cup Nested
 
 \* ---- corrupted encodings (C02): every single-header corruption and every truncation of a few base trees
 Bases == {[tag |-> 4325387, ty |-> 1, v |-> <<[tag |-> 4325382, ty |-> 7, v |-> <<97, 98, 99>>], [tag |-> 4325377, ty |-> 2, v |-> <<0,0,0,5>>]>>],
@@ -161,7 +167,8 @@ FixedPoint ==
 \* the specification's own parser does not look beyond the declared extent of the top-level item
 TwinsOK == c.kind = "twins" => LET ra == Parse(SubSeq(c.a, 1, c.extent), FALSE) rb == Parse(SubSeq(c.b, 1, c.extent), FALSE) IN ra = rb
 Export ==
-  IF c.kind = "tree" THEN [kind |-> "tree", tree |-> c.tree, bytes |-> Enc(c.tree)]
+  IF c.kind = "tree" /\ c.tree \in Nested THEN [kind |-> "nest", depth |-> CHOOSE n \in NestDepths : Nest(n) = c.tree, bytes |-> Enc(c.tree)]   \* the driver rebuilds Nest(depth)
+  ELSE IF c.kind = "tree" THEN [kind |-> "tree", tree |-> c.tree, bytes |-> Enc(c.tree)]
   ELSE IF c.kind = "twins" THEN [kind |-> "twins", bytes |-> c.a, twin |-> c.b, extent |-> c.extent, same |-> Parse(c.a, FALSE).ok = Parse(c.b, FALSE).ok]
   ELSE LET r == Parse(c.bytes, FALSE) IN
        IF r.ok THEN [kind |-> "bytes", bytes |-> c.bytes, accept |-> TRUE, tree |-> r.item, canon |-> Enc(r.item), strict |-> Parse(c.bytes, TRUE).ok]
